@@ -119,6 +119,23 @@ fn main() {
                 }
             }
         }
+        "debug-recshadow" => {
+            // oalv debug-recshadow <seed> <from> <to>: print C18 cases with a rec binder named like an earlier use
+            let seed: u64 = args[2].parse().unwrap();
+            let from: u64 = args[3].parse().unwrap();
+            let to: u64 = args[4].parse().unwrap();
+            for idx in from..to {
+                let mut st = util::Stats::new();
+                if let Some(c) = checks::common::gen_wt_case(seed, "c18", idx, &checks::c18::cfg(), &mut st) {
+                    if st.to_json().to_string().contains("like_a_parameter_used_before\":1") {
+                        println!("=== idx {idx}");
+                        for (f, t) in &c.sources.files {
+                            println!("--- {f}\n{t}");
+                        }
+                    }
+                }
+            }
+        }
         "replay" => {
             if args.len() < 3 {
                 usage();
